@@ -25,6 +25,7 @@ def main():
     place = cmd = None
     cwd_rel = ""
     nocopy = False
+    store_as = mn
     a = sys.argv[3:]
     while a:
         if a[0] == "--place":
@@ -33,11 +34,13 @@ def main():
             cmd = a[1]; a = a[2:]
         elif a[0] == "--cwd":
             cwd_rel = a[1]; a = a[2:]
+        elif a[0] == "--as":
+            store_as = a[1]; a = a[2:]
         elif a[0] == "--nocopy":
             nocopy = True; place = "."; a = a[1:]
         else:
             raise SystemExit("bad arg " + a[0])
-    base = f"/tmp/seed/{cid}"
+    base = os.environ.get("SEED_BASE", "/tmp/seed") + f"/{cid}"
     wt = f"{base}/wt"
     out = f"{base}/out/{mn}"
     run_txt = open(f"{out}/RUN.txt").read() if os.path.exists(f"{out}/RUN.txt") else ""
@@ -54,7 +57,7 @@ def main():
             raise SystemExit("cannot find command in RUN.txt; use --cmd")
         cmd = m.group(1).strip()
     demos = [f for f in glob.glob(f"{out}/*.go")] + [f for f in glob.glob(f"{out}/*.tars")]
-    res = {"id": f"{cid}-{mn}", "property": cid, "place": place, "demo_cmd": cmd, "demo_files": [os.path.basename(d) for d in demos]}
+    res = {"id": f"{cid}-{store_as}", "property": cid, "place": place, "demo_cmd": cmd, "demo_files": [os.path.basename(d) for d in demos]}
     rc, o = sh("git status --porcelain", wt)
     if o.strip():
         raise SystemExit(f"worktree not clean:\n{o}")
@@ -104,7 +107,7 @@ def main():
                 pass
         sh("git checkout -- . && git clean -fdq", wt)
     if ok:
-        dst = f"/verif/seeded/{cid}-{mn}"
+        dst = f"/verif/seeded/{cid}-{store_as}"
         os.makedirs(dst, exist_ok=True)
         for f in os.listdir(out):
             if f.endswith(".log"):
@@ -115,7 +118,7 @@ def main():
         res["needs_to_manifest"] = "see NOTES.md"
         res["confirmed"] = "patch applies; go build ./... ok; go test -vet=off -count=1 ./tars/... shows only the pre-existing TestKetamaHashAlg_Hash failure; demo fails with the patch and passes on the clean tree (run in scratch worktree %s)" % wt
         json.dump(res, open(f"{dst}/meta.json", "w"), indent=1)
-        print(f"CONFIRMED {cid}-{mn} -> {dst}")
+        print(f"CONFIRMED {cid}-{store_as} -> {dst}")
 
 
 if __name__ == "__main__":
